@@ -553,14 +553,18 @@ def check_dbgmap(cid, cfg, *xs):
     if _struct_cache[key] is not None:
         return 0
     io_lines = []
+    visited = []      # source lines of executed instructions, collapsed
 
     def per_tick(cpu, ticks):
         with NoTracing():
             prev = cpu.prev_pc
+            rec = module.debug_info.find_stmt(prev, cpu)
+            ln = rec.source_start_line if rec else None
+            if not visited or visited[-1] != ln:
+                visited.append(ln)
             if module.code[prev] == 27:         # io
-                rec = module.debug_info.find_stmt(prev, cpu)
                 io_lines.append((len(cpu.devices['terminal'].impl.trace),
-                                 rec.source_start_line if rec else None))
+                                 ln))
 
     trace, out, machine = run_impl(cell, cfg, xs, per_tick=per_tick)
     rtrace, res, it = run_ref(cell, xs)
@@ -582,7 +586,29 @@ def check_dbgmap(cid, cfg, *xs):
         rec = module.debug_info.find_stmt(out.trapped_addr, machine.cpu)
         if rec is None or rec.source_start_line != it.err_line:
             return 0
+    # every statement / condition evaluation the reference performed must
+    # show up, in order, as executed instructions attributed to its line
+    with NoTracing():
+        # (the monitor is not called after the halting instruction)
+        rec = module.debug_info.find_stmt(machine.cpu.prev_pc, machine.cpu)
+        visited.append(rec.source_start_line if rec else None)
+        events = []
+        for ln in it.events:
+            if not events or events[-1] != ln:
+                events.append(ln)
+        k = 0
+        for ln in visited:
+            if k < len(events) and events[k] == ln:
+                k += 1
+        if k != len(events):
+            _last_reason[0] = ('line %r (event %d of %r) has no executed '
+                               'instruction in order; visited %r' % (
+                                   events[k], k, events, visited))
+            return 0
     return 1
+
+
+_last_reason = [None]
 
 
 def dbgmap_reason(cid, cfg):
